@@ -119,7 +119,9 @@ type Sim struct {
 	stalls    int
 	maxParked int
 	choicePts int // steps where >= 2 tasks were parked
-	logHash   uint64
+	sigHash   uint64
+	multiHash uint64
+	stalled   map[string]bool
 	logText   []string
 	keepText  bool
 	start     time.Time
@@ -146,14 +148,21 @@ func NewSim(seed uint64, policy Policy) *Sim {
 func (s *Sim) Steps() int                { return s.steps }
 func (s *Sim) Fired() map[string]int     { return s.fired }
 func (s *Sim) FiredAt() []string         { return s.firedAt }
-func (s *Sim) LogHash() uint64           { return s.logHash }
+func (s *Sim) LogHash() uint64           { return H(s.sigHash, fmt.Sprint(s.multiHash)) }
 func (s *Sim) LogText() []string         { return s.logText }
 func (s *Sim) ChoicePoints() int         { return s.choicePts }
 func (s *Sim) VirtualElapsed() time.Duration { return time.Since(s.start) }
 
+// logf records an event. The event-log hash is built from (a) an ordered hash chain over the
+// significant events (loop messages, transport events, kills, notes) and (b) an order-insensitive
+// multiset hash over all events: Go map iteration order inside /repo permutes independent
+// sequential store operations of one goroutine, which must not change the fingerprint.
 func (s *Sim) logf(format string, a ...any) {
 	line := fmt.Sprintf(format, a...)
-	s.logHash = H(s.logHash, line)
+	s.multiHash += H(0x51, line)
+	if strings.Contains(line, "loop|send|") || strings.Contains(line, "net|") || strings.HasPrefix(line, "kill") || strings.HasPrefix(line, "note") {
+		s.sigHash = H(s.sigHash, line)
+	}
 	if s.keepText && len(s.logText) < 20000 {
 		s.logText = append(s.logText, line)
 	}
@@ -377,18 +386,20 @@ func (s *Sim) Drive(done <-chan struct{}, maxSteps int, idleLimit time.Duration)
 		if len(P) >= 2 {
 			s.choicePts++
 		}
+		t := s.choose(P)
 		if s.StallPermille > 0 && s.Policy != PolicyCanonical {
-			if int(H(s.Seed, "stall", fmt.Sprint(s.steps+s.stalls))%1000) < s.StallPermille {
-				d := time.Duration(50+H(s.Seed, "stalld", fmt.Sprint(s.steps+s.stalls))%4000) * time.Millisecond
+			addr := fmt.Sprintf("%s#%d", t.label, t.occ)
+			if !s.stalled[addr] && int(H(s.Seed, "stall", t.label, fmt.Sprint(t.occ))%1000) < s.StallPermille {
+				d := time.Duration(50+H(s.Seed, "stalld", t.label, fmt.Sprint(t.occ))%4000) * time.Millisecond
 				s.stalls++
-				s.mu.Lock()
-				s.logf("stall %v", d)
-				s.mu.Unlock()
-				time.Sleep(d)
+				if s.stalled == nil {
+					s.stalled = map[string]bool{}
+				}
+				s.stalled[addr] = true
+				time.Sleep(d) // slow node: timers fire while everything stays parked
 				continue
 			}
 		}
-		t := s.choose(P)
 		s.mu.Lock()
 		// remove t
 		for i, x := range s.parked {
@@ -413,7 +424,7 @@ func (s *Sim) Drive(done <-chan struct{}, maxSteps int, idleLimit time.Duration)
 			s.firedAt = append(s.firedAt, fmt.Sprintf("%s@%s#%d", d.Fault, t.label, t.occ))
 			s.lastFault = s.steps
 		}
-		s.logf("%d %s#%d f=%s k=%v", s.steps, t.label, t.occ, d.Fault, killNow)
+		s.logf("%s#%d f=%s k=%v", t.label, t.occ, d.Fault, killNow)
 		s.mu.Unlock()
 		if s.OnStep != nil {
 			s.OnStep(s, t.label)
